@@ -11,6 +11,12 @@
 //     Address() with the independently hashed address term and with every opaque-substituted
 //     variant; requires that hiding a needed branch makes Verify reject; and runs a sample of
 //     rows through consensus.ValidateV2Transaction on a funded state.
+//     The family "num" puts every numeric parameter of every policy kind at the extremes of its
+//     machine type: 0, 1, len, len+1, 255, 256 as numbers, everything beyond TLC's integers as the
+//     value classes BIG / NEG of Policy.tla. The verdict of a class comes from TLC; the harness
+//     runs the row once for EVERY member of the class (2^31, 2^32, 2^63-1, 2^63, 2^64-1; for times
+//     the int64 seconds around the range of time.Time and the negative ones) on Verify, on the
+//     policy decoded from its wire form, and through ValidateV2Transaction at the model's height.
 //  3. Direction B: seeded random trees up to depth 6 and the complexity limits (1024/1025
 //     sub-policies, 255/256 children, nesting depth 32/33) are run on the real code under a
 //     deadline; the recorded verdicts are validated by TLC against Meaning (PolicyTrace.tla).
@@ -340,10 +346,11 @@ func main() {
 		return
 	}
 	r := rand.New(rand.NewSource(c.Seed))
-	c.Rule("Direction A: TLC enumerates policy trees (all leaf kinds at lock values H-1,H,H+1 / T-1,T,T+1; 340-680 unlock-condition shapes over ed25519/entropy/other keys; thresholds n=0..3 of breadth<=3 over leaves, opaque and uc children; depth 2 of breadth<=3; depth 3-4 of breadth<=2), contexts (base, height-1, height+1, time-1, time+1 for policies with such a lock) and all witness assignments (signature sequences over {key0,key1,garbage} up to length 3 x preimage sequences up to length 2-3); quick checks the seed-selected half of the non-leaf policies, thorough all of them. One evaluation = one execution of the real Verify (or ValidateV2Transaction, or the codec for limit lines) compared with TLC's verdict. A case (policy, context, witnesses) is distinct by construction; it counts as non-trivial if it is accepted or lies within one insertion/deletion/substitution of an accepted assignment of the same policy and context (a near miss); a policy/context that nothing satisfies counts once. Direction B lines count as non-trivial if distinct and containing a threshold or unlock conditions. traces_validated = TLC rows (policy, context) replayed + trace files validated.")
+	c.Rule("Direction A: TLC enumerates policy trees (all leaf kinds at lock values H-1,H,H+1 / T-1,T,T+1; 340-680 unlock-condition shapes over ed25519/entropy/other keys; thresholds n=0..3 of breadth<=3 over leaves, opaque and uc children; depth 2 of breadth<=3; depth 3-4 of breadth<=2), contexts (base, height-1, height+1, time-1, time+1 for policies with such a lock) and all witness assignments (signature sequences over {key0,key1,garbage} up to length 3 x preimage sequences up to length 2-3); quick checks the seed-selected half of the non-leaf policies, thorough all of them. In addition the numeric family (always complete): above(h)/uc timelock in {0,H-1,H,H+1,BIG}, after(t) in {NEG,0,T-1,T,T+1,BIG}, uc signatures required in {0,1,len,len+1,255,256,BIG} over key lists of length 0..3 with duplicates, thresh n in {0,1,len,len+1,255}, where BIG/NEG are value classes whose verdict TLC computes once and whose members {2^31,2^32,2^63-1,2^63,2^64-1} (times: 2^31,2^32,2^63-1-62135596800,2^63-62135596800,2^63-1 and -2^63,-2^63+1,-62135596801,-2^32,-1) are each instantiated on the real code, in environment 0 (model numbers are the real ones) and one other, and every such row also through ValidateV2Transaction. One evaluation = one execution of the real Verify (or ValidateV2Transaction, or the codec for limit lines) compared with TLC's verdict. A case (policy, context, witnesses) is distinct by construction; it counts as non-trivial if it is accepted or lies within one insertion/deletion/substitution of an accepted assignment of the same policy and context (a near miss); a policy/context that nothing satisfies counts once. Direction B lines count as non-trivial if distinct and containing a threshold or unlock conditions. traces_validated = TLC rows (policy, context) replayed + trace files validated.")
 	c.Assume("ed25519 and SHA-256 are what they claim: a signature by key k over hash x verifies only under k and x; garbage signatures/preimages (random, bit-flipped, other hash, stranger's key) verify under nothing")
 	c.Assume("model heights/times are mapped to real ones monotonically (several bases incl. 2^32, 2^63, 2^64-1, negative Unix time, nanosecond steps); the comparison semantics are translation invariant")
 	c.Assume("unlock keys of algorithm ed25519 carry 32-byte keys (other lengths are outside the model)")
+	c.Assume("value classes: the meaning of a policy compares a parameter only with heights, times, list lengths and counts of the bounded model (checked by ASSUME in PolicyMC and per line in PolicyTrace), so one representative beyond all of them decides for every member of the class; the median time of the context itself is never taken outside the range of time.Time")
 
 	// ---- TLC: design level + emission -------------------------------------------------------
 	var cfgs []mcConfig
